@@ -2,7 +2,7 @@ use std::hash::Hash;
 use std::str::FromStr;
 
 use chrono::Duration;
-use tea_error::{TError, TResult, tbail, tensure};
+use tea_error::{TError, TResult, tbail, tensure, terr};
 
 use crate::convert::*;
 
@@ -116,15 +116,18 @@ impl TimeDelta {
     /// assert_eq!(td.inner, chrono::Duration::seconds(3 * 86400 + 4 * 3600 + 5 * 60 + 6));
     /// ```
     pub fn parse(duration: &str) -> TResult<Self> {
-        let mut nsecs = 0;
-        let mut secs = 0;
-        let mut months = 0;
+        // accumulate in i128 so that no term can overflow; the range is checked at the end
+        let mut nsecs = 0i128;
+        let mut secs = 0i128;
+        let mut months = 0i128;
         let mut iter = duration.char_indices();
         let mut start = 0;
         let mut unit = String::with_capacity(2);
         while let Some((i, mut ch)) = iter.next() {
             if !ch.is_ascii_digit() && i != 0 {
-                let n = duration[start..i].parse::<i64>().unwrap();
+                let n = duration[start..i].parse::<i64>().map_err(
+                    |e| terr!(ParseError:"invalid number '{}' in the duration string: {}", &duration[start..i], e),
+                )? as i128;
                 loop {
                     if ch.is_ascii_alphabetic() {
                         unit.push(ch)
@@ -145,21 +148,27 @@ impl TimeDelta {
 
                 match unit.as_str() {
                     "ns" => nsecs += n,
-                    "us" => nsecs += n * NANOS_PER_MICRO,
-                    "ms" => nsecs += n * NANOS_PER_MILLI,
+                    "us" => nsecs += n * NANOS_PER_MICRO as i128,
+                    "ms" => nsecs += n * NANOS_PER_MILLI as i128,
                     "s" => secs += n,
-                    "m" => secs += n * SECS_PER_MINUTE,
-                    "h" => secs += n * SECS_PER_HOUR,
-                    "d" => secs += n * SECS_PER_DAY,
-                    "w" => secs += n * SECS_PER_WEEK,
-                    "mo" => months += n as i32,
-                    "y" => months += n as i32 * 12,
+                    "m" => secs += n * SECS_PER_MINUTE as i128,
+                    "h" => secs += n * SECS_PER_HOUR as i128,
+                    "d" => secs += n * SECS_PER_DAY as i128,
+                    "w" => secs += n * SECS_PER_WEEK as i128,
+                    "mo" => months += n,
+                    "y" => months += n * 12,
                     unit => tbail!(ParseError:"unit: '{}' not supported", unit),
                 }
                 unit.clear();
             }
         }
-        let duration = Duration::seconds(secs) + Duration::nanoseconds(nsecs);
+        let too_large = || terr!(ParseError:"the duration is too large");
+        let months = i32::try_from(months).map_err(|_| too_large())?;
+        let secs = i64::try_from(secs).map_err(|_| too_large())?;
+        let nsecs = i64::try_from(nsecs).map_err(|_| too_large())?;
+        let duration = Duration::try_seconds(secs)
+            .and_then(|d| d.checked_add(&Duration::nanoseconds(nsecs)))
+            .ok_or_else(too_large)?;
         Ok(TimeDelta {
             months,
             inner: duration,
